@@ -96,6 +96,44 @@ def run(ctx):
                             none_edges.append((b, tgt))
                     if 0 not in [v for v, _ in t[2]]:
                         none_edges.append((b, t[3]))
+    # R3 alternative: nothing can be buffered for an object stream while the document is encrypted.
+    # The buffering branch must be infeasible under `encrypt_obj_id is Some` (path-sensitive, P9b), and
+    # `encrypt_obj_id` must be Some whenever `encryption_state` is (both set together, never reset).
+    no_buffer_when_encrypted = None
+    if buf:
+        def assume(b, t, _wo=wo):
+            c = t[1]
+            if not isinstance(c, dict) or not L.is_call_to(c, ["is_none", "is_some"]):
+                return None
+            r = L.recv_of(_wo, t[2])
+            if not r or r[1][-1:] != ["encrypt_obj_id"]:
+                return None
+            return (c.get("p") or "").endswith("is_some")
+        excluded = not (set(buf) & CF.reachable_assuming(wo, assume))
+        if excluded:
+            from .C03 import field_writes
+            st_w = field_writes(facts, "writer::pdf_writer::PdfWriter<", "encryption_state")
+            id_w = field_writes(facts, "writer::pdf_writer::PdfWriter<", "encrypt_obj_id")
+            id_owners = set(L.short(f.parent or f.id) for f, b, ln in id_w)
+            bad = []
+            for f, b, ln in st_w:
+                o = L.short(f.parent or f.id)
+                if o == "write_encryption_dict":
+                    continue        # take()/restore of the same value around the /Encrypt dictionary
+                if o not in id_owners:
+                    bad.append(o)
+            # encrypt_obj_id is only ever assigned Some(..) outside constructors
+            for f, b, ln in id_w:
+                st = [x for x in f.blocks[b][0] if x[0] == ln]
+                if not any(x[2][0] == "agg" and "Some" in str(x[2][1]) for x in st):
+                    bad.append(L.short(f.parent or f.id) + ":encrypt_obj_id-reset")
+            if st_w and id_w and not bad:
+                no_buffer_when_encrypted = "the buffering branch of write_object is infeasible once encrypt_obj_id is set, and " \
+                    "encrypt_obj_id is set wherever encryption_state is (%s)" % ", ".join(sorted(id_owners))
+    if no_buffer_when_encrypted:
+        for k in ("write_object:object-stream-members-not-individually-encrypted", "flush_object_streams:payload-encrypted",
+                  "write_encryption_dict:never-buffered"):
+            ctx.ok("R3", k, no_buffer_when_encrypted, wo.where(buf[0]))
     for sink_name, sinks in (("direct-emission", direct), ("object-stream-buffer", buf)):
         if not sinks:
             continue
@@ -108,6 +146,8 @@ def run(ctx):
                               {"path_lines": [wo.line(x) for x in w][:10]})
             else:
                 ctx.ok("R2", key, "encrypt_object on every encryption-active path", wo.where(sinks[0]))
+        elif no_buffer_when_encrypted:
+            pass
         else:
             # R3a: objects that go into an object stream must NOT be individually encrypted
             reach_from_enc = set()
@@ -125,7 +165,9 @@ def run(ctx):
     fo = ctx.fn(W + "flush_object_streams", "R3")
     enc_calls = L.calls_matching(fo, lambda c: "encrypt" in (c.get("p") or "").lower())
     via_write_object = L.calls_to(fo, [W + "write_object"])
-    if enc_calls or via_write_object:
+    if no_buffer_when_encrypted:
+        pass
+    elif enc_calls or via_write_object:
         ctx.ok("R3", "flush_object_streams:payload-encrypted", "payload passes %s" %
                (L.short((enc_calls or via_write_object)[0][1]["p"])), fo.where())
     else:
@@ -136,7 +178,9 @@ def run(ctx):
     # R3c /Encrypt dict never buffered
     we = ctx.fn(W + "write_encryption_dict", "R3")
     calls_wo = L.calls_to(we, [W + "write_object"])
-    if calls_wo and buf:
+    if no_buffer_when_encrypted:
+        pass
+    elif calls_wo and buf:
         # is the buffering branch of write_object conditioned on anything that excludes the /Encrypt dict?
         conds = set()
         for sb in g.dominators(buf[0]):
